@@ -148,6 +148,8 @@ func val(v interface{}) string {
 // newInst builds a cache through one of the public constructor variants.
 //   variant: default  -> NewDefault(dflt, cleanup[, cb])
 //            opts     -> New(WithDefaultExpiration, WithCleanupInterval[, WithEvictedCallback][, WithMinCapacity])
+//            over<b>  -> New(WithDefaultExpiration(b), WithCleanupInterval, [cb], [mincap], WithDefaultExpiration(dflt)): the
+//                        default is set twice in one option list (a base slice plus an override); the later one wins
 //            bare     -> New() then SetDefaultExpiration/SetEvictedCallback are NOT applied (dflt, cb ignored)
 func newInst(twin, variant string, dflt, cleanup int64, cb int, mincap int) *inst {
 	in := &inst{curCb: cb}
@@ -174,7 +176,18 @@ func newInst(twin, variant string, dflt, cleanup int64, cb int, mincap int) *ins
 			c = cache.New(cache.WithCleanupInterval(0))
 			in.curCb = 0
 		default:
-			panic("variant " + variant)
+			if !strings.HasPrefix(variant, "over") {
+				panic("variant " + variant)
+			}
+			o := []cache.Option{cache.WithDefaultExpiration(time.Duration(atoi64(variant[4:]))), cache.WithCleanupInterval(time.Duration(cleanup))}
+			if f != nil {
+				o = append(o, cache.WithEvictedCallback(f))
+			}
+			if mincap != 0 {
+				o = append(o, cache.WithMinCapacity(mincap))
+			}
+			o = append(o, cache.WithDefaultExpiration(time.Duration(dflt)))
+			c = cache.New(o...)
 		}
 		in.c = plain{c}
 	} else {
@@ -200,7 +213,19 @@ func newInst(twin, variant string, dflt, cleanup int64, cb int, mincap int) *ins
 			c = cache.NewOf[string, interface{}](cache.WithCleanupIntervalOf[string, interface{}](0))
 			in.curCb = 0
 		default:
-			panic("variant " + variant)
+			if !strings.HasPrefix(variant, "over") {
+				panic("variant " + variant)
+			}
+			o := []cache.OptionOf[string, interface{}]{cache.WithDefaultExpirationOf[string, interface{}](time.Duration(atoi64(variant[4:]))),
+				cache.WithCleanupIntervalOf[string, interface{}](time.Duration(cleanup))}
+			if f != nil {
+				o = append(o, cache.WithEvictedCallbackOf[string, interface{}](f))
+			}
+			if mincap != 0 {
+				o = append(o, cache.WithMinCapacityOf[string, interface{}](mincap))
+			}
+			o = append(o, cache.WithDefaultExpirationOf[string, interface{}](time.Duration(dflt)))
+			c = cache.NewOf[string, interface{}](o...)
 		}
 		in.c = generic{c}
 	}
@@ -582,8 +607,8 @@ func seqCache(a map[string]string) {
 		if s%8 == 7 {
 			g.nkeys = 150 + r.intn(250) // long chains and resizes of the underlying table
 		}
-		variants := []string{"default", "opts", "bare"}
-		variant := variants[r.intn(3)]
+		variants := []string{"default", "opts", "bare", "over3600000000000", "over-1", "over40"}
+		variant := variants[r.intn(len(variants))]
 		g.dflt = dfltChoices[r.intn(len(dfltChoices))]
 		cb := []string{"nil", "1", "2"}[r.intn(3)]
 		mincap := []int{0, 0, 1, 96, 200}[r.intn(5)]
